@@ -11,7 +11,9 @@ Definition lbl := label val.
 Definition c16req := (meth * reqinfo * bytes)%type.
 
 Inductive c16case :=
-| C16Trace (cfg : srvcfg) (cap : nat) (date : bytes)
+| C16Trace (cfg : srvcfg) (cap : nat)        (* Server.Concurrency, as the specification reads it *)
+           (semcap : nat)                        (* cap(s.concurrencyCh) when the handlers ran: Concurrency after Serve, 0 (nil channel) on a server that only ran ServeConn *)
+           (date : bytes)
            (tmsg : bytes) (tcode : Z)            (* TimeoutWithCodeHandler(h, d, msg, statusCode) *)
            (events : list event)                 (* the scenario, as the specification sees it *)
            (trace : list lbl)                    (* the same scenario as LTS labels, in the order the harness forced *)
@@ -56,8 +58,8 @@ Fixpoint conns_ok (cfg : srvcfg) (date : bytes) (s : state val) (c : nat) (rs : 
 
 Definition corr_ok (c : c16case) : bool :=
   match c with
-  | C16Trace cfg cap date tmsg tcode _ trace reqs wires _ =>
-      match run val (timeout_val tmsg tcode) (too_many_val tmsg) [] cap (init val []) trace with
+  | C16Trace cfg _ semcap date tmsg tcode _ trace reqs wires _ =>
+      match run val (timeout_val tmsg tcode) (too_many_val tmsg) [] semcap (init val []) trace with
       | None => false                                 (* the harness forced an order the model cannot take *)
       | Some s => Nat.eqb (s_nconn val s) (length reqs) && conns_ok cfg date s 0 reqs wires
       end
@@ -99,7 +101,7 @@ Fixpoint judge (tmsg : bytes) (tcode : Z) (xs : list (nat * expectation)) (reqs 
 
 Definition prop_ok (c : c16case) : bool :=
   match c with
-  | C16Trace cfg cap date tmsg tcode events _ reqs wires maxrun =>
+  | C16Trace cfg cap _ date tmsg tcode events _ reqs wires maxrun =>
       let xs := expectations cap events in
       judge tmsg tcode xs reqs wires (fun _ => O) &&
       (* every response was expected: as many responses as requests in the scenario *)
